@@ -46,6 +46,13 @@ Definition media_is_declaration (m : N) : bool := N.eqb m 7 || N.eqb m 8 || N.eq
 Definition served_hash (r : wresp) : option N :=
   match r with WModule _ wm => Some (wm_hash_raw wm) | _ => None end.
 
+(* the module answers of the world that report [final] as their final specifier
+   (the requested specifier itself unless the loader answers under another name) *)
+Definition answers_for (W : world) (final : spec) : list wmod :=
+  flat_map (fun p : spec * wresp => match snd p with
+                                    | WModule f wm => if N.eqb f final then [wm] else []
+                                    | _ => [] end) (w_resp W ++ w_resp_reload W).
+
 (* (1) every load of a resource whose checksum the lockfile knows presents it *)
 Definition presented_ok (lock : list (spec * N)) (o : obs) : bool :=
   forallb (fun c => match lookup (fst c) lock with
@@ -92,7 +99,7 @@ Definition recorded_ok (W : world) (lock : list (spec * N)) (o : obs) (faithful_
                       | None => false end
     | None => false end &&
     (negb faithful_raw ||
-     match served_hash (resp_of W (fst p)) with Some h => N.eqb h (snd p) | None => false end)) (ob_sets o) &&
+     existsb (fun wm => N.eqb (wm_hash_raw wm) (snd p)) (answers_for W (fst p)))) (ob_sets o) &&
   (* every new remote non-declaration module entry was recorded *)
   forallb (fun kv : N * sexp =>
     match payload_code_media (snd kv) with
@@ -118,10 +125,9 @@ Definition c05_known_class (W : world) (o : obs) : bool :=
       presented_ok lock o && rejected_not_admitted W lock o && redirect_rejected W lock o &&
       recorded_ok W lock o false &&
       forallb (fun p : spec * N =>
-        match resp_of W (fst p) with
-        | WModule _ wm => N.eqb (snd p) (wm_hash_raw wm) ||
-                          (N.eqb (snd p) (wm_hash_text wm) && negb (N.eqb (wm_hash_raw wm) (wm_hash_text wm)))
-        | _ => false end) (ob_sets o)
+        existsb (fun wm => N.eqb (snd p) (wm_hash_raw wm) ||
+                           (N.eqb (snd p) (wm_hash_text wm) && negb (N.eqb (wm_hash_raw wm) (wm_hash_text wm))))
+                (answers_for W (fst p))) (ob_sets o)
   end.
 
 Definition run_c05 (input : sexp) : sexp :=
